@@ -21,7 +21,7 @@ def build(tier, seed):
         chosen = singles + pairs
     tpls = []
     for k, (desc, src) in enumerate(scripts):
-        t = sce.Template(desc, src, [], "True", observe="trace+globals", budget=3000, ignore_globals=fam.loop_target_globals(src))
+        t = sce.Template(desc, src, [], "True", observe="trace+globals", budget=3000)
         tpls.append(t)  # all 4 semantic configurations (x 2 unparsers)
     for k, (desc, src) in enumerate(chosen):
         uses_s = "s" in _names(src)
@@ -33,7 +33,7 @@ def build(tier, seed):
             pre += ["0 <= a <= 3", "0 <= b <= 3", "s in ('', 'a', chr(39), 'ab')"]
         if "assign_sub" in desc or "dict_set_gen" in desc:
             pre += ["-2 <= b <= 2"]
-        t = sce.Template(desc, src, params, " and ".join(pre) or "True", observe="trace+globals", budget=150, ignore_globals=fam.loop_target_globals(src))
+        t = sce.Template(desc, src, params, " and ".join(pre) or "True", observe="trace+globals", budget=150)
         if desc.startswith("C01:single:"):
             pass  # all 4 configurations
         elif tier == "quick":
@@ -75,6 +75,5 @@ def run(tier):
     cov["explanation"] = "one PEP-316 condition per (program, configuration): recorded print() events and all final user globals of exec(source) and eval(converted) must coincide for every a, b, s; only __ol_* names and the helper modules itertools/importlib may be added"
     rep.assumptions += [
         "print is a recording stand-in under CrossHair (arguments canonicalised with bool/float tags so that equal records print the same text); the real print and the stdout text are used on replay",
-        "names bound only as module-level for-loop targets are excluded from the globals comparison (known finding KF-C01-FORLEAK, re-checked on its minimal input every run)",
     ]
     return rep.finish()
